@@ -531,7 +531,7 @@ pub fn run(cfg: &Cfg, c14: bool) -> (&'static str, Report, String, String) {
     let walpha = ["a", " ", ",", "ñ", "1", "-", "2", "\t", "個", "true", "0", ",,", "\u{ffff}", "\u{8000}", "\u{800}", "\u{10ffff}", "\u{80}", "\u{fffd}"];
     rep.merge(par_for(cfg, nrand, |i, r| {
         let mut rng = Rng::new(cfg.seed.wrapping_mul(999_983).wrapping_add(i as u64));
-        let s = random_string(&mut rng, &walpha, cfg.by(8, 24, 24));
+        let s = random_string(&mut rng, &walpha, if i % 8 == 7 { cfg.by(20, 120, 200) } else { cfg.by(8, 24, 24) });
         let base = *rng.pick(&[0usize, 1, 7, 1000]);
         let mut cx = Ctx { s: &s, base: if c14 { 0 } else { base }, c14, hist: Vec::new() };
         let mut p = if cx.base == 0 { Parser::new(&s) } else { Parser::with_start_offset(&s, cx.base) };
